@@ -149,7 +149,7 @@ LAYOUT_TEMPLATES = [
 
 REF_KINDS = ["none", "inline", "external_rel", "external_abs", "missing", "eisdir", "eacces", "bad_base64",
              "bad_json", "garbage_file", "index_inline", "index_external", "empty_url", "no_comma", "charset_inline",
-             "block_comment", "two_comments", "huge", "empty_file", "comment_midfile", "long_missing", "long_external", "first_after_code"]
+             "block_comment", "two_comments", "huge", "empty_file", "comment_midfile", "long_missing", "long_external", "first_after_code", "percent_missing"]
 
 # 63 ASCII bytes, then a two-byte character straddling byte 64
 LONG_URL = "m" * 63 + "\u00e9/\u4e2d\u6587-bundle.js.map"
@@ -185,6 +185,12 @@ def make_case(rng, code, kind, chain, comments, style, file="/w/src/app.js", par
         usable = True
     elif kind == "missing":
         ref = "//# sourceMappingURL=nowhere.map"
+        if parent != "none" and d not in ("", "/"):
+            # a map of that name exists relative to the working directory: it is NOT the file's map
+            decoy = json.dumps({"version": 3, "sources": ["other/project.ts"], "names": [], "mappings": "AAAA;AACA;AACA;AACA;AACA"})
+            reader["files"]["nowhere.map"] = {"kind": "ok", "content": decoy}
+    elif kind == "percent_missing":
+        ref = "//# sourceMappingURL=" + rng.choice(["app%20v2.js.map?rev=%7", "%4", "50%)", "%%%", "a%2", "%", "x%zz.map"])
     elif kind == "long_missing":
         ref = "//# sourceMappingURL=" + LONG_URL
     elif kind == "long_external":
